@@ -1,7 +1,11 @@
--- root of the library: every property file (built by `lake build`)
+-- root of the library: every property file of a claimed check (built by `lake build`)
 import LdarModel.Props.C01
 import LdarModel.Props.C02
 import LdarModel.Props.C03
 import LdarModel.Props.C04
 import LdarModel.Props.C05
+import LdarModel.Props.C08
+import LdarModel.Props.C10
 import LdarModel.Props.C11
+import LdarModel.Props.C13
+import LdarModel.Props.C16
